@@ -54,6 +54,18 @@ def demo_block(readme, agent_wt, wt, seed_dir):
     # demo files named without a directory are in the seed directory
     for fn in os.listdir(seed_dir):
         text = re.sub(r"(\bcp\s+(?:-r\s+)?)" + re.escape(fn) + r"(\s)", lambda m: m.group(1) + os.path.join(seed_dir, fn) + m.group(2), text)
+    # a block that runs the demo both ways: keep the part before the patch is applied
+    keep, seen_test = [], False
+    for l in text.split("\n"):
+        if re.search(r"\bgit( -C \S+)? apply\b", l):
+            if seen_test:
+                break
+            # "apply the patch first (omit for the unchanged run)": the patch is applied by this tool
+            l = re.sub(r"(&&\s*)?git( -C \S+)? apply[^#&;]*", "", l)
+        if re.search(r"\bgo test\b", l):
+            seen_test = True
+        keep.append(l)
+    text = "\n".join(keep)
     # drop clean-up lines: the worktree is thrown away anyway, and a failing demo must keep its exit status
     text = "\n".join(l for l in text.split("\n") if not re.match(r"^\s*\(?(rm|git -C .* checkout)\b", l))
     return "set -o pipefail\n" + text
